@@ -14,7 +14,7 @@
 From Coq Require Import List ZArith NArith Bool.
 Import ListNotations.
 From LC Require Import Base Regex RegexFacts FlexEngine Bisim ScanAction ScannerSpec ScannerCert ScannerFacts
-  Tokens Lexer Reader LexTotal LineFacts.
+  Tree Lookup Tokens Lexer Reader LexTotal LineFacts NameFacts.
 From LC.gen Require Import ScannerTables.
 Local Open Scope Z_scope.
 
@@ -91,3 +91,17 @@ Theorem C18_step_line : forall atof FS incdir incf max_depth st b,
   end.
 Proof. exact lex_step_line. Qed.
 Print Assumptions C18_step_line.
+
+(* ---- names ---- *)
+(* the documented name pattern and __config_validate_name describe the same strings ... *)
+Theorem C18_name_pattern_valid : forall w, matches p_name w -> bytes_ok w -> validate_name w = true.
+Proof. exact name_pattern_valid. Qed.
+Print Assumptions C18_name_pattern_valid.
+
+(* ... so every name token of every stream config_read hands to the parser is a valid setting name *)
+Theorem C18_names_valid : forall atof FS,
+  (forall f content, fs_lookup FS f = Some (FFile content) -> bytes_ok content) ->
+  forall c top text, bytes_ok text ->
+  Forall (fun tk => forall nm, lt_tok tk = TkName nm -> validate_name nm = true) (fst (lex_top atof FS c top text)).
+Proof. exact scanner_names_valid. Qed.
+Print Assumptions C18_names_valid.
